@@ -185,6 +185,11 @@ def main(chk):
               "permit ip object-group GD object-group G1", "permit tcp host 10.1.0.9 host 10.0.1.9", "deny ip any any", "permit ip object-group G3 any"]
     gcases = [(l, (), "", False) for n in (2, 3) for l in itertools.product(GALPHA, repeat=n)]
     cases += gcases
+    # entries whose port expression denotes no port at all standing ABOVE ordinary entries (they cover nothing)
+    EALPHA = ["permit tcp any any lt 0", "permit tcp any lt 0 any", "permit tcp any any gt 65535", "permit tcp any any lt 1", "permit tcp any any eq 80",
+              "permit tcp any any range 1 65534", "permit tcp any eq 1024 any", "deny ip any any"]
+    ecases = [(l, (), "", False) for n in (2, 3) for l in itertools.product(EALPHA, repeat=n)]
+    cases += ecases
     res = pmap(check_delete, cases)
     viol = 0
     for fails, _ in res:
@@ -194,7 +199,8 @@ def main(chk):
     chk.add_bounded("contract of Acl.delete_shadow (report, subsequence, only covered ACEs removed, remarks/order/numbers/grouping kept, idempotent)",
                     len(cases), sum(d for _, d in res),
                     f"all ACLs of <= {3 if chk.tier == 'quick' else 4} items over the {len(C11.ALPHABET)}-kind alphabet (+ slice of length 4), flat / numbered / grouped by remark prefix; "
-                    f"{len(gcases)} ACLs of 2..3 items over {len(GALPHA)} entries with address groups on both sides",
+                    f"{len(gcases)} ACLs of 2..3 items over {len(GALPHA)} entries with address groups on both sides; {len(ecases)} ACLs of 2..3 items over {len(EALPHA)} entries "
+                    "with empty port sets (lt 0, lt 1, gt 65535) above ordinary ones",
                     viol, time.time() - t0, [list(acls[80])], exhaustive=True)
     t0 = time.time()
     mcases = ["cover-then-other", "other-then-cover", "edited-in-place"]
